@@ -78,7 +78,9 @@ CaseJ(c) ==
    LET rx == c[1]  parts == c[2]  kw == Kw(parts)
        S(s) == SpyEval(ReqState(SideOf(rx, s), kw))
        Dl(rv, a) == IF a /\ ~HasTS(rx) THEN 0 ELSE SpyEval(ReqDelta(rx, kw, rv, a))
+       ActCall(rv) == [fn |-> "delta", side |-> "-", rev |-> rv, act |-> TRUE]
    IN [r |-> rx.r, p |-> rx.p, t |-> rx.t, hasTS |-> HasTS(rx),
+       actRefused |-> \A rv \in BOOLEAN : ReqResult(rx, kw, ActCall(rv)) = Refused,
        globT |-> CondT(parts.glob), globP |-> CondP(parts.glob),
        blocks |-> BlocksJ(parts), route |-> RouteJ(rx, kw),
        st |-> <<S("r"), S("p"), S("t")>>,
